@@ -185,7 +185,21 @@ fn parse_include(
     delayed_constants: &mut HashMap<Vec<u8>, NodePtr>,
     macros: &mut Vec<(Vec<u8>, NodePtr)>,
     run_program: Rc<dyn TRunProgram>,
+    // The names of the files being included right now, outermost first.
+    include_chain: &mut Vec<Vec<u8>>,
 ) -> Result<(), EvalErr> {
+    // A file that includes itself, directly or through other files, would be
+    // read without end.
+    let name_bytes = match allocator.sexp(name) {
+        SExp::Atom => allocator.atom(name).as_ref().to_vec(),
+        _ => Vec::new(),
+    };
+    if include_chain.contains(&name_bytes) {
+        return Err(EvalErr::InternalError(
+            name,
+            "include file includes itself".to_string(),
+        ));
+    }
     m! {
         prog <- assemble(
             allocator,
@@ -200,8 +214,9 @@ fn parse_include(
         match proper_list(allocator, assembled_sexp.1, true) {
             None => { Err(EvalErr::InternalError(name, "include returned malformed result".to_string())) },
             Some(assembled) => {
+                include_chain.push(name_bytes);
                 for sexp in assembled {
-                    parse_mod_sexp(
+                    if let Err(e) = parse_mod_sexp(
                         allocator,
                         sexp,
                         namespace,
@@ -209,9 +224,14 @@ fn parse_include(
                         constants,
                         delayed_constants,
                         macros,
-                        run_program.clone()
-                    )?;
+                        run_program.clone(),
+                        include_chain,
+                    ) {
+                        include_chain.pop();
+                        return Err(e);
+                    }
                 };
+                include_chain.pop();
                 Ok(())
             }
         }
@@ -320,6 +340,7 @@ fn parse_mod_sexp(
     delayed_constants: &mut HashMap<Vec<u8>, NodePtr>,
     macros: &mut Vec<(Vec<u8>, NodePtr)>,
     run_program: Rc<dyn TRunProgram>,
+    include_chain: &mut Vec<Vec<u8>>,
 ) -> Result<(), EvalErr> {
     let NodeSel::Cons(op_node, First::Here(name_node)) =
         NodeSel::Cons(ThisNode::Here, First::Here(ThisNode::Here))
@@ -352,6 +373,7 @@ fn parse_mod_sexp(
             delayed_constants,
             macros,
             run_program.clone(),
+            include_chain,
         )
     } else if op == "embed-file".as_bytes() {
         let (name, constant) =
@@ -418,6 +440,7 @@ fn compile_mod_stage_1(
         let mut delayed_constants = HashMap::new();
         let mut macros = Vec::new();
         let mut namespace = HashSet::new();
+        let mut include_chain = Vec::new();
 
         // eslint-disable-next-line no-constant-condition
         match proper_list(allocator, args, true) {
@@ -438,7 +461,8 @@ fn compile_mod_stage_1(
                         &mut constants,
                         &mut delayed_constants,
                         &mut macros,
-                        run_program.clone()
+                        run_program.clone(),
+                        &mut include_chain
                     )?;
                 }
 
